@@ -502,6 +502,14 @@ func primPerPrefix[T constraints.Unsigned](c *primCtx) {
 	primObjList[T](c)
 }
 
+// guard runs one family of primitive pairs; a panic inside a reader or writer on a well-formed value or image is
+// reported (the pair cannot have agreed) instead of taking the monitor down.
+func (c *primCtx) guard(name string, f func()) {
+	if _, p := mon.Call(func() error { f(); return nil }); p != nil {
+		c.e.R.Violate("C03/primitive-panicked/"+name, "C03/primitive-panicked", map[string]any{"family": name, "panic": p.Value, "stack": p.Stack})
+	}
+}
+
 func c03(e *Env) {
 	r := e.R
 	r.Rule("(a) every big/little-endian primitive pair of codec/binary_codec.go instantiated for every prefix type (u8,u16,u32,u64) and every element type (10 numeric types), and again with defined (named) element and prefix types, which the ~ constraints admit: case i is a pure function of (seed,'C03',pair,i), boundary-biased numbers, list lengths 0..258, hostile text; (b) every message type: canonical values as in C01, tokenised by the pinned schema. distinct_nontrivial = (a) pairs of outputs containing at least one multi-byte numeric token whose byte reversal differs from itself + (b) distinct non-zero values whose image contains such a token")
@@ -511,26 +519,26 @@ func c03(e *Env) {
 	if e.Only == "" || e.Only == "primitives" {
 		c := &primCtx{e: e, rng: gen.NewRng(e.Seed, "C03", "prim"), n: e.N(600, 15000), pairs: map[string]int{}}
 		c.g = &gen.Gen{S: e.S, C: e.C, R: c.rng, O: &gen.Opts{}}
-		primAllPrefixesBasic[int8](c)
-		primAllPrefixesBasic[int16](c)
-		primAllPrefixesBasic[int32](c)
-		primAllPrefixesBasic[int64](c)
-		primAllPrefixesBasic[uint8](c)
-		primAllPrefixesBasic[uint16](c)
-		primAllPrefixesBasic[uint32](c)
-		primAllPrefixesBasic[uint64](c)
-		primAllPrefixesBasic[float32](c)
-		primAllPrefixesBasic[float64](c)
-		primAllPrefixesBasic[namedI64](c) // defined element types
-		primAllPrefixesBasic[namedU16](c)
-		primAllPrefixesBasic[namedF32](c)
-		primBasicList[namedPfx16, int32](c) // defined prefix types
-		primBasicList[namedPfx8, uint16](c)
-		primPerPrefix[namedPfx16](c)
-		primPerPrefix[uint8](c)
-		primPerPrefix[uint16](c)
-		primPerPrefix[uint32](c)
-		primPerPrefix[uint64](c)
+		c.guard("primAllPrefixesBasic[int8]", func() { primAllPrefixesBasic[int8](c) })
+		c.guard("primAllPrefixesBasic[int16]", func() { primAllPrefixesBasic[int16](c) })
+		c.guard("primAllPrefixesBasic[int32]", func() { primAllPrefixesBasic[int32](c) })
+		c.guard("primAllPrefixesBasic[int64]", func() { primAllPrefixesBasic[int64](c) })
+		c.guard("primAllPrefixesBasic[uint8]", func() { primAllPrefixesBasic[uint8](c) })
+		c.guard("primAllPrefixesBasic[uint16]", func() { primAllPrefixesBasic[uint16](c) })
+		c.guard("primAllPrefixesBasic[uint32]", func() { primAllPrefixesBasic[uint32](c) })
+		c.guard("primAllPrefixesBasic[uint64]", func() { primAllPrefixesBasic[uint64](c) })
+		c.guard("primAllPrefixesBasic[float32]", func() { primAllPrefixesBasic[float32](c) })
+		c.guard("primAllPrefixesBasic[float64]", func() { primAllPrefixesBasic[float64](c) })
+		c.guard("primAllPrefixesBasic[namedI64]", func() { primAllPrefixesBasic[namedI64](c) }) // defined element types
+		c.guard("primAllPrefixesBasic[namedU16]", func() { primAllPrefixesBasic[namedU16](c) })
+		c.guard("primAllPrefixesBasic[namedF32]", func() { primAllPrefixesBasic[namedF32](c) })
+		c.guard("primBasicList[namedPfx16, int32]", func() { primBasicList[namedPfx16, int32](c) }) // defined prefix types
+		c.guard("primBasicList[namedPfx8, uint16]", func() { primBasicList[namedPfx8, uint16](c) })
+		c.guard("primPerPrefix[namedPfx16]", func() { primPerPrefix[namedPfx16](c) })
+		c.guard("primPerPrefix[uint8]", func() { primPerPrefix[uint8](c) })
+		c.guard("primPerPrefix[uint16]", func() { primPerPrefix[uint16](c) })
+		c.guard("primPerPrefix[uint32]", func() { primPerPrefix[uint32](c) })
+		c.guard("primPerPrefix[uint64]", func() { primPerPrefix[uint64](c) })
 		r.Evals(c.evals)
 		r.DistinctAdd(c.nonPal)
 		r.Set("primitive_pairs_instantiated", len(c.pairs))
